@@ -789,6 +789,9 @@ func c13Gen(rng *rand.Rand, tier string, w *bufio.Writer) {
 		"gx b:c70081a17805@1500000000000000000 0 - exp=1900000000000000000 eq:78:04 set:79:01",
 		"gx b:c70081a17805@1500000000000000000 0 - clr,ca,cb=616c - inc:78:a161",
 		"gx b:81a17805@1500000000000000000 0 - - - set:79:01", "gx other@1500000000000000000 0 - - - set:79:01",
+		// a seed that is not a map: documented TYPE_MISMATCH, with and without ops
+		"pf absent 1 01 - -", "pf absent 1 9101 - -", "pf absent 1 a161 ua,ca -", "gp absent 1 01 - -", "pf absent 1 01 - nex:78:",
+		"pf absent 1 01 - - set:78:01", "pf absent 1 80 - -", "pf absent 1 - - -", "pf b:c70081a17801 1 01 - -", "pf b:c70081a17801 0 01 - -",
 		"gp absent 1 81a17805 ua,ca,cb=616c - set:79:01", "gp absent 0 - - - set:79:01", "gp other 0 - - - set:79:01",
 		"ap 80 - set:78:81a16101 set:782e61:02",                                // into a value SET earlier in the same patch
 		"ap 80 - app:745b5d:9101 app:745b305d5b5d:02",                          // into an array APPENDed earlier
@@ -933,18 +936,21 @@ func c13Gen(rng *rand.Rand, tier string, w *bufio.Writer) {
 				stored += fmt.Sprintf("@%d", 1700000000000000000+rng.Int63n(1e18))
 			}
 			create, cnd, op := rng.Intn(2), c13Cond(rng, addrs), c13Op(rng, addrs)
-			fmt.Fprintf(w, "pf %s %d %s %s %s %s\n", stored, create, seed, meta, cnd, op)
+			if rng.Intn(5) == 0 {
+				op = "" // no op at all: the body (or the seed) is stored as it is
+			}
+			fmt.Fprintf(w, "%s\n", strings.TrimRight(fmt.Sprintf("pf %s %d %s %s %s %s", stored, create, seed, meta, cnd, op), " "))
 			// the same call over the wire: Gateway.PatchTreasures with the proto enums, and — for a stored treasure —
 			// Gateway.PatchExpiredTreasures on an expired copy of it (the second copy of the per-key flow)
 			wcnd, wop := c13WireTok(rng, cnd, c13CondDoc), c13WireTok(rng, op, c13OpDoc)
-			fmt.Fprintf(w, "gp %s %d %s %s %s %s\n", stored, create, seed, meta, wcnd, wop)
-			if stored != "absent" {
+			fmt.Fprintf(w, "%s\n", strings.TrimRight(fmt.Sprintf("gp %s %d %s %s %s %s", stored, create, seed, meta, wcnd, wop), " "))
+			if stored != "absent" && (op != "" || meta != "-") {
 				base := stored
 				if i := strings.IndexByte(base, '@'); i >= 0 {
 					base = base[:i]
 				}
 				wcnd, wop = c13WireTok(rng, cnd, c13CondDoc), c13WireTok(rng, op, c13OpDoc)
-				fmt.Fprintf(w, "gx %s@%d 0 - %s %s %s\n", base, 1000000000000000000+rng.Int63n(7e17), meta, wcnd, wop)
+				fmt.Fprintf(w, "%s\n", strings.TrimRight(fmt.Sprintf("gx %s@%d 0 - %s %s %s", base, 1000000000000000000+rng.Int63n(7e17), meta, wcnd, wop), " "))
 			}
 		}
 	}
